@@ -3,5 +3,6 @@ CONSTANTS
   Polls <- R3
   Pubs <- U2
   Fix = FALSE
-INVARIANTS NoDeadLetter Conservation InOrder NothingLost
+  FixHB = TRUE
+INVARIANTS StaysOnline NoDeadLetter Conservation InOrder NothingLost
 CHECK_DEADLOCK FALSE
